@@ -206,7 +206,7 @@ func C01(r *core.Run) {
 	r.Cov["states"] = res.Stats.PStates
 	r.Cov["transitions"] = res.Stats.PTrans
 	r.Cov["inconclusive_pairs"] = res.Stats.Inconclusive
-	r.Cov["rule"] = "strata A (1 entry <= One tokens, 2 entries <= Two tokens, 3 single-token entries) x headers, B (all well-formed bodies of <= StructLen lines over the structural alphabet), C (every rewritten entry at 6 structural positions), D (every set of <= 4 of 12 words with shared prefixes/suffixes in 5 concatenation templates), E (every set of <= 3 of 10 cmdline words incl. markers and verbatim lines x unix/windows x 3 templates); states/transitions = product-automaton states/transitions summed over all (output, plain reading) pairs that were not byte-identical; non-trivial = output differs from the naive alternation of the entries; B2 (bodies over the extended structural alphabet: comments, blank and indented lines, a second stored name, the other shell, header lines in odd places, include of a file with its own definition, definition and reference lines, marked cmdline words; includes and definitions are resolved by the reference before the plain reading), P (every pair of group-ish entries as prefix and suffix around a fixed body) and G (single entries and prefix/suffix pairs built from whole-group tokens)"
+	r.Cov["rule"] = "strata A (1 entry <= One tokens, 2 entries <= Two tokens, 3 single-token entries) x headers, B (all well-formed bodies of <= StructLen lines over the structural alphabet), C (every rewritten entry at 6 structural positions), D (every set of <= 4 of 12 words with shared prefixes/suffixes in 5 concatenation templates), E (every set of <= 3 of 10 cmdline words incl. markers and verbatim lines x unix/windows x 3 templates); states/transitions = product-automaton states/transitions summed over all (output, plain reading) pairs that were not byte-identical; non-trivial = output differs from the naive alternation of the entries; B2 (bodies over the extended structural alphabet: comments, blank and indented lines, a second stored name, the other shell, header lines in odd places, include of a file with its own definition, definition and reference lines, marked cmdline words; includes and definitions are resolved by the reference before the plain reading), P (every pair of group-ish entries as prefix and suffix around a fixed body) and G (single entries and prefix/suffix pairs built from whole-group tokens); stratum U (entries of <= 2 tokens and pairs of single tokens over the upper-case escape classes \\S \\D \\W and their neighbours, under every flag setting)"
 	r.Cov["samples"] = []any{
 		Prog{Flags: "is", Prefix: "[xy]+", Suffix: `\b`, Lines: [][]string{{"a", "|", "b"}, {"[", "a-c", "]"}}}.Text(),
 		Prog{Lines: tokLines([]string{"##!> assemble", "a", "##!=>", "b|c", "##!<", "ab"})}.Text(),
